@@ -7,9 +7,19 @@
    np.roots is an ORACLE: every function that reaches it takes the oracle's
    output (a list of complex numbers) as an argument; the model contains the
    filtering / de-duplication / min / max logic that the code applies to it.
+   Two variant flags select between the pinned source and its repairs:
+     fixed  = false : polyroots' de-duplication AS PINNED (index of a close PAIR
+                      used as index of a ROOT);
+              true  : the repaired loop (drop the LATER root of a close pair) =
+                      BezierN.dedup_fixed of property C19;
+     stable = false : bezier_real_minmax closed form (tau -+ sqrt(delta))/denom;
+              true  : the cancellation-free form q = tau + sign(tau) sqrt(delta),
+                      r1 = q/denom, r2 = (a0 - a1)/q.
+   The harnesses detect the variant of the tree under test by probing it.
    Properties C08 and C13. *)
 From Coq Require Import ZArith List Bool.
 From SVP Require Import Base.Num Base.Cplx Base.Poly.
+From SVP Require Model.BezierN.     (* dedup_fixed: the index-correct de-duplication of property C19 *)
 Import ListNotations.
 Set Implicit Arguments.
 
@@ -72,17 +82,23 @@ Section Extrema.
       | x :: r => if existsb (Nat.eqb i) dups then drop_idx (S i) dups r
                   else x :: drop_idx (S i) dups r
       end.
-    Definition dedup (l : list K) : list K := drop_idx O (dup_idx O (pairs l)) l.
+    Definition dedup_coded (l : list K) : list K := drop_idx O (dup_idx O (pairs l)) l.
+    (* repaired:  for (i1, r1), (i2, r2) in combinations(enumerate(roots), 2):
+                      if isclose(r1, r2): duplicates.add(i2)
+       i.e. root j is dropped when some EARLIER root i < j (dropped or not) is
+       isclose to it: exactly BezierN.dedup_fixed *)
+    Definition dedup (fixed : bool) (l : list K) : list K :=
+      if fixed then BezierN.dedup_fixed N rtol atol l else dedup_coded l.
 
     (* roots = np.roots(p)  [oracle output, argument]
        roots = [r.real for r in roots if isclose(r.imag, 0)]
        roots = [r for r in roots if condition(r)]; then the dedup loop *)
     Definition real_roots (roots : list (Cplx K)) : list K :=
       map (@re K) (filter (fun r => isclose (im r) 0) roots).
-    Definition polyroots_real (cond : K -> bool) (roots : list (Cplx K)) : list K :=
-      dedup (filter cond (real_roots roots)).
-    Definition polyroots01 (roots : list (Cplx K)) : list K := polyroots_real le01 roots.
-    Definition polyroots_open01 (roots : list (Cplx K)) : list K := polyroots_real lt01 roots.
+    Definition polyroots_real (fixed : bool) (cond : K -> bool) (roots : list (Cplx K)) : list K :=
+      dedup fixed (filter cond (real_roots roots)).
+    Definition polyroots01 (fixed : bool) (roots : list (Cplx K)) : list K := polyroots_real fixed le01 roots.
+    Definition polyroots_open01 (fixed : bool) (roots : list (Cplx K)) : list K := polyroots_real fixed lt01 roots.
   End Roots.
 
   (* ================= bezier.bezier_real_minmax (4 real control values) ========= *)
@@ -111,42 +127,55 @@ Section ExtremaT.
   Definition brm_r2 (a0 a1 a2 a3 : K) : K :=
     (brm_tau N a0 a1 a2 - sqrt_ T (brm_delta N a0 a1 a2 a3)) / brm_denom N a0 a1 a2 a3.
 
+  (* repaired closed form:  q = tau + sqdelta if tau >= 0 else tau - sqdelta
+                            if q != 0: r1 = q/denom; r2 = (a[0] - a[1])/q   else: r1 = r2 = 0 *)
+  Definition brm_q (a0 a1 a2 a3 : K) : K :=
+    if leb N 0 (brm_tau N a0 a1 a2) then brm_tau N a0 a1 a2 + sqrt_ T (brm_delta N a0 a1 a2 a3)
+    else brm_tau N a0 a1 a2 - sqrt_ T (brm_delta N a0 a1 a2 a3).
+  Definition brm_roots (stable : bool) (a0 a1 a2 a3 : K) : K * K :=
+    if stable then
+      (if neqb N (brm_q a0 a1 a2 a3) 0
+       then (brm_q a0 a1 a2 a3 / brm_denom N a0 a1 a2 a3, (a0 - a1) / brm_q a0 a1 a2 a3)
+       else (0, 0))
+    else (brm_r1 a0 a1 a2 a3, brm_r2 a0 a1 a2 a3).
   (* the list local_extremizers of the cubic closed form (denom != 0) *)
-  Definition brm_closed_cands (a0 a1 a2 a3 : K) : list K :=
+  Definition brm_closed_cands (stable : bool) (a0 a1 a2 a3 : K) : list K :=
     [0; 1] ++
     (if leb N 0 (brm_delta N a0 a1 a2 a3) then
-       (if lt01 N (brm_r1 a0 a1 a2 a3) then [brm_r1 a0 a1 a2 a3] else []) ++
-       (if lt01 N (brm_r2 a0 a1 a2 a3) then [brm_r2 a0 a1 a2 a3] else [])
+       (if lt01 N (fst (brm_roots stable a0 a1 a2 a3)) then [fst (brm_roots stable a0 a1 a2 a3)] else []) ++
+       (if lt01 N (snd (brm_roots stable a0 a1 a2 a3)) then [snd (brm_roots stable a0 a1 a2 a3)] else [])
      else []).
   (* denom = 0: local_extremizers += polyroots01(derivative coefficients) *)
-  Definition brm_cands (atol rtol : K) (a0 a1 a2 a3 : K) (roots : list (Cplx K)) : list K :=
-    if neqb N (brm_denom N a0 a1 a2 a3) 0 then brm_closed_cands a0 a1 a2 a3
-    else [0; 1] ++ polyroots01 N atol rtol roots.
-  Definition bezier_real_minmax4 (atol rtol : K) (a0 a1 a2 a3 : K) (roots : list (Cplx K)) : K * K :=
-    let ext := map (bpoint4 N a0 a1 a2 a3) (brm_cands atol rtol a0 a1 a2 a3 roots) in
+  Definition brm_cands (stable fixed : bool) (atol rtol : K) (a0 a1 a2 a3 : K) (roots : list (Cplx K)) : list K :=
+    if neqb N (brm_denom N a0 a1 a2 a3) 0 then brm_closed_cands stable a0 a1 a2 a3
+    else [0; 1] ++ polyroots01 N atol rtol fixed roots.
+  Definition bezier_real_minmax4 (stable fixed : bool) (atol rtol : K) (a0 a1 a2 a3 : K)
+             (roots : list (Cplx K)) : K * K :=
+    let ext := map (bpoint4 N a0 a1 a2 a3) (brm_cands stable fixed atol rtol a0 a1 a2 a3 roots) in
     (lmin N ext, lmax N ext).
 
   (* bezier_bounding_box, len(bez) = 4; rx / ry = np.roots output for the
      derivative of the x- / y-polynomial (consulted only when denom = 0) *)
-  Definition cubic_bbox (atol rtol : K) (p0 p1 p2 p3 : Cplx K) (rx ry : list (Cplx K)) : K * K * K * K :=
-    let '(xmin, xmax) := bezier_real_minmax4 atol rtol (re p0) (re p1) (re p2) (re p3) rx in
-    let '(ymin, ymax) := bezier_real_minmax4 atol rtol (im p0) (im p1) (im p2) (im p3) ry in
+  Definition cubic_bbox (stable fixed : bool) (atol rtol : K) (p0 p1 p2 p3 : Cplx K)
+             (rx ry : list (Cplx K)) : K * K * K * K :=
+    let '(xmin, xmax) := bezier_real_minmax4 stable fixed atol rtol (re p0) (re p1) (re p2) (re p3) rx in
+    let '(ymin, ymax) := bezier_real_minmax4 stable fixed atol rtol (im p0) (im p1) (im p2) (im p3) ry in
     (xmin, xmax, ymin, ymax).
 
   (* bezier_bounding_box, other lengths: x, y = real/imag coefficient lists of
      bezier2polynomial (numpy order), extremizers [0,1] + polyroots(dx, 0<r<1),
      extrema evaluated by poly1d.__call__ (Horner) *)
-  Definition poly_minmax (atol rtol : K) (p : list K) (roots : list (Cplx K)) : K * K :=
-    let ext := map (peval N p) ([0; 1] ++ polyroots_open01 N atol rtol roots) in
+  Definition poly_minmax (fixed : bool) (atol rtol : K) (p : list K) (roots : list (Cplx K)) : K * K :=
+    let ext := map (peval N p) ([0; 1] ++ polyroots_open01 N atol rtol fixed roots) in
     (lmin N ext, lmax N ext).
-  Definition poly_bbox (atol rtol : K) (px py : list K) (rx ry : list (Cplx K)) : K * K * K * K :=
-    let '(xmin, xmax) := poly_minmax atol rtol px rx in
-    let '(ymin, ymax) := poly_minmax atol rtol py ry in
+  Definition poly_bbox (fixed : bool) (atol rtol : K) (px py : list K) (rx ry : list (Cplx K)) : K * K * K * K :=
+    let '(xmin, xmax) := poly_minmax fixed atol rtol px rx in
+    let '(ymin, ymax) := poly_minmax fixed atol rtol py ry in
     (xmin, xmax, ymin, ymax).
   (* QuadraticBezier.bbox: bezier2polynomial for 3 control points *)
   Definition quad_coeffs (a0 a1 a2 : K) : list K := [(a0 - #2 * a1) + a2; #2 * (a1 - a0); a0].
-  Definition quad_bbox (atol rtol : K) (p0 p1 p2 : Cplx K) (rx ry : list (Cplx K)) : K * K * K * K :=
-    poly_bbox atol rtol (quad_coeffs (re p0) (re p1) (re p2)) (quad_coeffs (im p0) (im p1) (im p2)) rx ry.
+  Definition quad_bbox (fixed : bool) (atol rtol : K) (p0 p1 p2 : Cplx K) (rx ry : list (Cplx K)) : K * K * K * K :=
+    poly_bbox fixed atol rtol (quad_coeffs (re p0) (re p1) (re p2)) (quad_coeffs (im p0) (im p1) (im p2)) rx ry.
 
   (* ================= Arc.bbox =================
      the Arc's derived parameters (theta, delta in degrees, phi in radians,
@@ -211,11 +240,11 @@ Section ExtremaT.
     padd N (pmul N X X) (pmul N Y Y).
   Definition r_squared_deriv (p : list (Cplx K)) (z : Cplx K) : list K := pderiv N (r_squared p z).
   (* roots: np.roots(r_squared.deriv()) *)
-  Definition radial_cands (atol rtol : K) (roots : list (Cplx K)) : list K :=
-    [0; 1] ++ polyroots01 N atol rtol roots.
-  Definition bezier_radialrange (atol rtol : K) (point : K -> Cplx K) (z : Cplx K)
+  Definition radial_cands (fixed : bool) (atol rtol : K) (roots : list (Cplx K)) : list K :=
+    [0; 1] ++ polyroots01 N atol rtol fixed roots.
+  Definition bezier_radialrange (fixed : bool) (atol rtol : K) (point : K -> Cplx K) (z : Cplx K)
              (roots : list (Cplx K)) : (K * K) * (K * K) :=
-    let extrema := map (fun t => (cabs (csub N (point t) z), t)) (radial_cands atol rtol roots) in
+    let extrema := map (fun t => (cabs (csub N (point t) z), t)) (radial_cands fixed atol rtol roots) in
     (kmin N extrema, kmax N extrema).
 
   (* ================= Path.radialrange =================
